@@ -11,6 +11,7 @@ import ToastyVerif.Model.Publish
 import ToastyVerif.Gen.Paths
 import ToastyVerif.Model.Pixels
 import ToastyVerif.Model.Cascade
+import ToastyVerif.Props.C14
 
 namespace Driver
 
@@ -382,6 +383,37 @@ def handleCasc (op : String) (a : List String) : String :=
     | _, _, _ => "bad-op"
   | _, _ => "bad-op"
 
+/-! ### FITS data range: prefix-coded tree, `N t t t t` | `L v,v,…` | `L -` -/
+
+partial def parseTree : List String → Option (C14.T × List String)
+  | "L" :: v :: rest =>
+    if v = "-" then some (.leaf [], rest)
+    else match (v.splitOn ",").mapM String.toInt? with
+      | some vs => some (.leaf vs, rest)
+      | none => none
+  | "N" :: rest => do
+    let (a, r1) ← parseTree rest
+    let (b, r2) ← parseTree r1
+    let (c, r3) ← parseTree r2
+    let (d, r4) ← parseTree r3
+    some (.node a b c d, r4)
+  | _ => none
+
+def showHdr (h : Option (Option Int × Option Int)) : String :=
+  match h with
+  | none => "x"
+  | some (a, b) => s!"{match a with | some v => toString v | none => "?"}:{match b with | some v => toString v | none => "?"}"
+
+/-- headers of all nodes in preorder -/
+def allHdrs : C14.T → List String
+  | .leaf v => [showHdr (C14.hdr (fun _ => (none, none)) (.leaf v))]
+  | .node a b c d => showHdr (C14.hdr (fun _ => (none, none)) (.node a b c d)) :: (allHdrs a ++ allHdrs b ++ allHdrs c ++ allHdrs d)
+
+def handleRange (a : List String) : String :=
+  match parseTree a with
+  | some (t, []) => " ".intercalate (allHdrs t)
+  | _ => "bad-op"
+
 def handle (toks : List String) : String :=
   match toks with
   | "gen" :: op :: args => match ints args with
@@ -398,6 +430,7 @@ def handle (toks : List String) : String :=
   | "path" :: op :: args => handlePath op args
   | "px" :: op :: args => handlePx op args
   | "casc" :: op :: args => handleCasc op args
+  | "range" :: args => handleRange args
   | _ => "bad-op"
 
 end Driver
